@@ -224,6 +224,19 @@ func BindConnected(
 		h.DisconnectingEnd = Remove(source, target, s.Disconnecting, disconnecting)
 	}
 
+	// a skipped state still has its fields bound as handlers, and calling a nil
+	// func panics inside the source
+	noop := func(e *am.Event) {}
+	for _, fn := range []*am.HandlerFinal{
+		&h.DisconnectedState, &h.DisconnectedEnd, &h.ConnectingState,
+		&h.ConnectingEnd, &h.ConnectedState, &h.ConnectedEnd,
+		&h.DisconnectingState, &h.DisconnectingEnd,
+	} {
+		if *fn == nil {
+			*fn = noop
+		}
+	}
+
 	return source.HandlersBind(h, am.BindOpts{
 		Id: "BindConnected-" + target.Id(),
 	})
